@@ -5,6 +5,7 @@ import (
 	"os"
 	"runtime"
 	"sync"
+	"sync/atomic"
 	"testing"
 	"testing/synctest"
 	"time"
@@ -71,7 +72,7 @@ type Sim struct {
 	Viol     *Violation
 	Stuck    bool // horizon reached with work still pending
 	StepsOut bool // MaxSteps reached
-	aborting bool
+	aborting atomic.Bool
 	vmu      sync.Mutex
 }
 
@@ -164,7 +165,7 @@ func IsAbort(r any) bool { _, ok := r.(abortTask); return ok }
 // Step parks the task until the scheduler grants its next operation.
 func (tk *Task) Step(label string) {
 	tk.mu.Lock()
-	if tk.sim.aborting {
+	if tk.sim.aborting.Load() {
 		tk.mu.Unlock()
 		panic(abortTask{})
 	}
@@ -346,9 +347,9 @@ func (s *Sim) Sleep(d time.Duration) {
 // goroutines exit; tasks blocked inside an operation must be unblocked by the
 // engine (close the connection, cancel the context) before or after this call.
 func (s *Sim) Abort() {
+	s.aborting.Store(true)
 	for _, tk := range s.taskList() {
 		tk.mu.Lock()
-		s.aborting = true
 		parked := tk.waiting != ""
 		if parked {
 			tk.aborted = true
